@@ -21,7 +21,7 @@ RULE = ("EX = every list (order matters, repetition allowed) of <= L paths drawn
 MIN = {"quick": {"annotate==recomputed": 15000, "outputs-are-inputs": 15000, "path_length/duration": 15000},
        "thorough": {"annotate==recomputed": 400000, "outputs-are-inputs": 400000, "path_length/duration": 400000}}
 REQUIRED_CELLS = {t: ("input:real", "input:synthetic", "input:exhaustive", "tie:shortest", "tie:fastest",
-                      "tie:foremost", "times:hundreds", "times:huge", "times:numpy", "times:numpy-huge", "times:beyond-int64",
+                      "tie:foremost", "times:hundreds", "times:huge", "times:numpy", "times:numpy-huge", "times:beyond-int64", "times:span>=2**64", "times:bool-first",
                       "input:edited-in-place")
                   for t in ("quick", "thorough")}
 
@@ -119,11 +119,13 @@ def run(ctx, dn):
             pl = []
             # time scales: small, hundreds (durations beyond the small-int cache), nanosecond epochs beyond 2**53
             # (a few ns apart), numpy integers
-            scale = rng.choice(("small", "small", "hundreds", "huge", "numpy", "numpy-huge", "beyond-int64"))
+            scale = rng.choice(("small", "small", "hundreds", "huge", "numpy", "numpy-huge", "beyond-int64",
+                                "span>=2**64", "bool-first"))
             ctx.cell("times:" + scale)
             base = {"small": 0, "hundreds": 1000, "huge": 2 ** 60, "numpy": 0, "numpy-huge": 2 ** 53,
-                    "beyond-int64": 2 ** 63}[scale]
-            step = {"small": 3, "hundreds": 400, "huge": 3, "numpy": 300, "numpy-huge": 2, "beyond-int64": 3}[scale]
+                    "beyond-int64": 2 ** 63, "span>=2**64": 0, "bool-first": 0}[scale]
+            step = {"small": 3, "hundreds": 400, "huge": 3, "numpy": 300, "numpy-huge": 2, "beyond-int64": 3,
+                    "span>=2**64": 2 ** 64, "bool-first": 3}[scale]
             for _ in range(cnt):
                 if pl and rng.random() < 0.2:
                     pl.append(rng.choice(pl))
@@ -137,6 +139,8 @@ def run(ctx, dn):
                     if scale in ("numpy", "numpy-huge"):
                         import numpy as np
                         tt = np.int64(t)
+                    if scale == "bool-first" and h == 0 and t in (0, 1):
+                        tt = bool(t)             # snapshot 0 / 1 written as False / True
                     p.append((a, b, tt))
                     a = b
                     t += rng.randint(1, step)
